@@ -33,7 +33,11 @@ func VerifH_CancelUnblocks() {
 	vrt.Tag("close-behind-parked-send", scen == scSendParkedCloseBehind || scen == scSendParkedCloseSendBehind)
 	tr := &hx.Transport{}
 	gate := false
-	conn := NewWithOptions(tr, Options{Manager: drpcmanager.Options{SoftCancel: soft}})
+	wsize := 0
+	if vrt.Bool("tinyWriterBuffer") {
+		wsize = 1 // every frame is flushed inside WriteFrame (as for messages beyond the buffer size)
+	}
+	conn := NewWithOptions(tr, Options{Manager: drpcmanager.Options{SoftCancel: soft, WriterBufferSize: wsize}})
 	ctx := hx.NewCtx()
 	enc := hx.ByteEnc{}
 
